@@ -243,6 +243,7 @@ func (fr *Frame) exec(ins ssa.Instruction, st *State) {
 		fr.checkGuard(lv, true, ins.Pos())
 		fr.checkElemsAtomic(ins.Addr, true, ins.Pos())
 		vc.storeL(lv, fr.val(ins.Val).S, st)
+		fr.poolNewStore(ins, lv)
 	case *ssa.BinOp:
 		fr.execBinOp(ins)
 	case *ssa.Convert:
@@ -312,6 +313,7 @@ func (fr *Frame) exec(ins ssa.Instruction, st *State) {
 		r := vc.newRef(st, fr.curReach)
 		fr.vals[ins] = Term{r, "Int", ins.Type()}
 		fr.closures()[ins] = ins
+		fr.checkClosureRequires(ins, st)
 	case *ssa.MakeMap:
 		fr.execMakeMap(ins, st)
 	case *ssa.MakeChan:
@@ -1080,3 +1082,77 @@ func (vc *VC) sentinel(key string) string {
 var sentinels = map[*VC][]string{}
 
 func (vc *VC) sentinelList() []string { return sentinels[vc] }
+
+// poolNewStore: storing a function whose contract says `pool_new K` into the New field of a sync.Pool
+// makes that pool a kind-K pool (poolkind is what sync.Pool.Get's contract is keyed on).
+func (fr *Frame) poolNewStore(ins *ssa.Store, lv *LVal) {
+	vc := fr.vc
+	var fn *ssa.Function
+	switch v := ins.Val.(type) {
+	case *ssa.Function:
+		fn = v
+	case *ssa.MakeClosure:
+		fn, _ = v.Fn.(*ssa.Function)
+	}
+	if fn == nil || lv.Ref == "" || len(lv.Path) != 1 || lv.Path[0].field < 0 {
+		return
+	}
+	n, ok := lv.Path[0].structT.(*types.Named)
+	if !ok || n.Obj().Pkg() == nil || n.Obj().Pkg().Path() != "sync" || n.Obj().Name() != "Pool" || fieldName(lv.Path[0].structT, lv.Path[0].field) != "New" {
+		return
+	}
+	spec := vc.lookupSpec(qualName(fn))
+	if spec == nil || spec.PoolNew == 0 {
+		return
+	}
+	vc.callees[spec.Key] = true
+	vc.assumeIf(fr.curReach, fmt.Sprintf("(= (poolkind %s) %d)", lv.Ref, spec.PoolNew))
+}
+
+// checkClosureRequires: pre-conditions a closure's contract states about its captured variables are
+// obligations where the closure is created (the captured cells hold their values from then on: a
+// closure with such a contract must not have its captured variables reassigned — checked too).
+func (fr *Frame) checkClosureRequires(mc *ssa.MakeClosure, st *State) {
+	vc := fr.vc
+	fn, ok := mc.Fn.(*ssa.Function)
+	if !ok {
+		return
+	}
+	spec := vc.lookupSpec(qualName(fn))
+	if spec == nil || len(spec.Requires) == 0 {
+		return
+	}
+	env := map[string]Term{}
+	for k, fv := range fn.FreeVars {
+		if k >= len(mc.Bindings) {
+			break
+		}
+		lv := fr.lvalOf(mc.Bindings[k])
+		env[fv.Name()] = vc.loadL(lv, st)
+		if al, ok := mc.Bindings[k].(*ssa.Alloc); ok {
+			stable := true
+			if refs := al.Referrers(); refs != nil {
+				for _, r := range *refs {
+					if s, ok := r.(*ssa.Store); ok && s.Addr == al && !(s.Block().Dominates(mc.Block())) {
+						stable = false
+					}
+				}
+			}
+			if freeVarWritten(fv) {
+				stable = false
+			}
+			if !stable {
+				vc.oblige("closure", fr.autoTags(), fr.curReach, "false", fmt.Sprintf("variable %s captured by %s is assigned after the closure was created (its contract relies on the captured value)", fv.Name(), spec.Key), mc.Pos(), nil)
+			}
+		}
+	}
+	ctx := &SpecCtx{vc: vc, env: env, st: st, old: st, pkg: spec.Pkg}
+	for _, rq := range spec.Requires {
+		g, err := ctx.evalBool(rq.E)
+		if err != nil {
+			vc.note("pre-condition of closure %s not checked at its creation (it mentions more than captured variables): %s", spec.Key, rq.Text)
+			continue
+		}
+		vc.oblige("precondition", fr.tagsFor(rq.Tags), fr.curReach, g, fmt.Sprintf("pre-condition of closure %s on its captured variables: %s", spec.Key, rq.Text), mc.Pos(), rq)
+	}
+}
